@@ -2710,3 +2710,173 @@ def ntlm_derivation(ctx, mir, stats):
                 "detail": "final token = AUTHENTICATE header | MIC | payload, serialised once after the MIC is known (so the MIC sits right after the header whatever the Version flag)" if ok2 else
                 "the final token is not assembled as header | MIC | payload (pushes after mic: %d, to_vec: %d)" % (len(pushes), len(tv)), "where": g.name})
     return obs
+
+
+# --------------------------------------------------------------------------
+# C18: gcc::Version::from (u32 -> Version) against the enum's own wire values
+# --------------------------------------------------------------------------
+def version_table(ctx, mir, stats):
+    """E3: Version::from is executed symbolically over every u32. For each variant with an explicit wire value d (the enum's
+    discriminant, i.e. what `version as u32` puts on the wire): from(d) must return that variant; and no other u32 may map to a
+    variant with an explicit wire value. One obligation per wire value, so that a recorded finding is identified by its input."""
+    import mirq
+    cands = [f for f in find_fn(mir, r"^gcc::<impl at src/core/gcc\.rs[^>]*>::from$", unique=False) if (f.ret or "").strip() == "Version"]
+    if len(cands) != 1:
+        raise Inconclusive("ENCODING-FAILED: <Version as From<u32>>::from not found (%d candidates)" % len(cands))
+    f = cands[0]
+    wire = {}
+    for k, (v, ty) in mirq.CONSTS.items():
+        m = re.match(r"^(?:\w+::)*Version::(\w+)::\{constant#0\}$", k)
+        if m and ty == "u32":
+            wire[m.group(1)] = v
+    if len(wire) < 2:
+        raise Inconclusive("ENCODING-FAILED: explicit discriminants of gcc::Version not found in the MIR constants (%s)" % wire)
+    se = SymExec(f, stats).run()
+    e = next((v for nm, (v, ty) in se.inputs.items() if nm.startswith("arg_1#")), None)
+    if e is None or not se.finished:
+        raise Inconclusive("ENCODING-FAILED: argument / paths of Version::from not recognised")
+    paths = []
+    for p in se.finished:
+        rv = [ev[3] for ev in p.events if ev[0] == "assign" and ev[2] == "_0"]
+        m = re.match(r"^(?:\w+::)*Version::(\w+)$", rv[-1]) if rv else None
+        if not m:
+            raise Inconclusive("ENCODING-FAILED: a path of Version::from does not return a variant literal (%s)" % rv)
+        paths.append((p, m.group(1)))
+    obs = []
+
+    def native(val, expect_variant):
+        body = "        let v = Version::from(0x%08x_u32);\n" % val
+        if expect_variant:
+            body += "        assert!(v == Version::%s, \"Version::from(0x%08x) is not Version::%s (which is written as 0x%08x)\");" % (expect_variant, val, expect_variant, val)
+        else:
+            body += "        assert!(%s, \"Version::from(0x%08x) is a version whose wire value is not 0x%08x\");" % (" && ".join("v != Version::%s" % n for n in sorted(wire)), val, val)
+        return _native("verif_replay_version_from", "src/core/gcc.rs", body)
+    for name, d in sorted(wire.items(), key=lambda kv: kv[1]):
+        got = None
+        for p, variant in paths:
+            s = z3.Solver()
+            for c in p.cond:
+                s.add(c)
+            s.add(e == d)
+            stats.queries += 1
+            if s.check() == z3.sat:
+                got = variant
+                break
+        ok = got == name
+        obs.append({"id": "version:wire-0x%08x" % d, "ok": ok, "functions": [f.name], "where": f.name, "cex": {"e": "0x%08x" % d}, "needs_native": False, "native": None if ok else native(d, name),
+                    "detail": "Version::from(0x%08x) returns %s, the variant written as 0x%08x" % (d, name, d) if ok else
+                    "Version::from(0x%08x) returns %s%s, not %s: the version a peer encodes is not the version decoded" % (d, got, " (written as 0x%08x)" % wire[got] if got in wire else "", name)})
+    for p, variant in paths:
+        if variant not in wire:
+            continue
+        verdict, mdl, smt = se.check(p, [z3.And(*[e != d for d in wire.values()])], "value outside the table mapped to a version")
+        cvc5_check(smt, verdict, stats)
+        ok = verdict == "unsat"
+        val = None
+        if not ok:
+            s = z3.Solver()
+            for c in p.cond:
+                s.add(c)
+            s.add(z3.And(*[e != d for d in wire.values()]))
+            s.check()
+            val = s.model().eval(e, model_completion=True).as_long()
+        obs.append({"id": "version:only-table-values->%s" % variant, "ok": ok, "functions": [f.name], "where": f.name, "cex": mdl, "needs_native": False, "native": None if ok else native(val, None),
+                    "detail": "only wire values of the enum are decoded as %s" % variant if ok else "Version::from(0x%08x) returns %s although no variant is written as 0x%08x" % (val, variant, val)})
+    return obs
+
+
+# --------------------------------------------------------------------------
+# C04: extended info packet (TS_EXTENDED_INFO_PACKET): counts vs the buffers sent
+# --------------------------------------------------------------------------
+def _bytes_literal_len(lit):
+    body = re.match(r'^const b"(.*)"$', lit.strip())
+    if not body:
+        return None
+    return len(re.findall(r'\\x[0-9a-fA-F]{2}|\\[nrt0\\"\']|[^\\]', body.group(1)))
+
+
+EXT_INFO_NATIVE = _native("verif_replay_extended_info_counts", "src/core/sec.rs", """
+        // MS-RDPBCGR 2.2.1.11.1.1.1: cbClientAddress / cbClientDir are the byte sizes of clientAddress / clientDir including the mandatory null terminator;
+        // a strict parser reads exactly that many bytes, then the next count
+        let bytes = ::model::data::to_vec(&rdp_extended_infos());
+        let u16_at = |o: usize| bytes[o] as usize | (bytes[o + 1] as usize) << 8;
+        let cb_addr = u16_at(2);
+        assert!(cb_addr >= 2 && cb_addr % 2 == 0, "cbClientAddress = {} does not include the null terminator", cb_addr);
+        assert_eq!(&bytes[4 + cb_addr - 2..4 + cb_addr], &[0u8, 0u8], "clientAddress is not null terminated");
+        let cb_dir = u16_at(4 + cb_addr);
+        assert!(cb_dir >= 2 && cb_dir % 2 == 0, "cbClientDir = {} does not include the null terminator", cb_dir);
+        assert_eq!(&bytes[6 + cb_addr + cb_dir - 2..6 + cb_addr + cb_dir], &[0u8, 0u8], "clientDir is not null terminated");
+        assert_eq!(bytes.len(), 6 + cb_addr + cb_dir + 172 + 4 + 4, "strict parse does not consume the packet exactly");""")
+
+
+def extended_info_counts(ctx, mir, stats):
+    """E3 over rdp_extended_infos (straight-line constructor): the count fields are compared with the byte length of the literals sent next to them,
+    and the Size the count field announces to the record container (its DynOption closure, over every field value) must be the count itself."""
+    f = find_fn(mir, r"^rdp_extended_infos$")
+    se = SymExec(f, stats, loop_bound=0, max_paths=2000).run()
+    obs = []
+    if not se.finished:
+        raise Inconclusive("ENCODING-FAILED: rdp_extended_infos has no completed path")
+    p = se.finished[0]
+    ins = calls_on(p.events, r"IndexMap::<String, Box<dyn Message>>::insert$")
+    keyed, order = {}, []
+    for i, e in ins:
+        k = resolve_source(p.events, i, e[4][1], depth=6)
+        m = re.search(r'const "(\w+)"', k)
+        if m:
+            keyed[m.group(1)] = (i, e)
+            order.append(m.group(1))
+    want = ["clientAddressFamily", "cbClientAddress", "clientAddress", "cbClientDir", "clientDir", "clientTimeZone", "clientSessionId", "performanceFlags"]
+    obs.append({"id": "ext_info:field-order", "ok": order == want, "functions": [f.name], "where": f.name, "needs_native": True, "native": None if order == want else EXT_INFO_NATIVE,
+                "detail": "fields are inserted in the order of TS_EXTENDED_INFO_PACKET: %s" % ", ".join(want) if order == want else "fields inserted as %s" % order})
+    if not all(k in keyed for k in want):
+        return obs
+
+    def count_before(i):
+        u = [x for x in p.events[:i] if x[0] == "assign" and x[3].startswith("Value::<u16>::LE(")]
+        return se.operand(p, u[-1][3][len("Value::<u16>::LE("):-1]) if u else None
+
+    def literal_len(i):
+        lits = [x for x in p.events[:i] if x[0] == "assign" and re.match(r'^const b"', x[3])]
+        return _bytes_literal_len(lits[-1][3]) if lits else None
+    prev = 0
+    for cb, fld in (("cbClientAddress", "clientAddress"), ("cbClientDir", "clientDir")):
+        i, _e = keyed[cb]
+        j, _e2 = keyed[fld]
+        v = count_before(i)
+        lits = [x for x in p.events[i:j] if x[0] == "assign" and re.match(r'^const b"', x[3])]
+        n = _bytes_literal_len(lits[-1][3]) if lits else None
+        if v is None or n is None or not z3.is_bv_value(z3.simplify(v)):
+            obs.append({"id": "ext_info:%s" % cb, "ok": False, "functions": [f.name], "where": f.name, "needs_native": True, "native": EXT_INFO_NATIVE,
+                        "detail": "%s / %s are no longer a literal count next to a literal buffer (not recognised)" % (cb, fld)})
+            continue
+        val = z3.simplify(v).as_long()
+        ok = val == n and n >= 2
+        obs.append({"id": "ext_info:%s" % cb, "ok": ok, "functions": [f.name], "where": f.name, "needs_native": False, "native": None if ok else EXT_INFO_NATIVE,
+                    "detail": "%s = %d = byte size of the %d-byte `%s` buffer (terminator included)" % (cb, val, n, fld) if ok else
+                    "%s = %d but the `%s` buffer sent after it is %d bytes: a strict parser reads %d bytes of address/dir and takes the rest as the next field" % (cb, val, fld, n, val)})
+    # the size announced for clientAddress by the count field's closure
+    cls = [g for g in mir if re.match(r"^rdp_extended_infos::\{closure#\d+\}$", g.name) and (g.ret or "").endswith("MessageOption")]
+    for g in cls:
+        ce = SymExec(g, stats, call_model=closure_call_model).run()
+        for q in ce.finished:
+            for ev in q.events:
+                if ev[0] == "assign" and ev[3].startswith("MessageOption::Size("):
+                    parts = split_top(ev[3][len("MessageOption::Size("):-1])
+                    sz = ce.operand(q, parts[1])
+                    fv = q.env.get("field.inner")
+                    if sz is None or fv is None:
+                        obs.append({"id": "ext_info:announced-size", "ok": False, "functions": [g.name], "where": g.name, "needs_native": True, "native": EXT_INFO_NATIVE, "detail": "announced size not encodable: " + ev[3]})
+                        continue
+                    verdict, mdl, smt = ce.check(q, [sz != z3.ZeroExt(sz.size() - fv.size(), fv)], "announced size == count")
+                    cvc5_check(smt, verdict, stats)
+                    obs.append({"id": "ext_info:announced-size", "ok": verdict == "unsat", "functions": [g.name], "where": g.name, "cex": mdl, "needs_native": False, "native": None if verdict == "unsat" else EXT_INFO_NATIVE,
+                                "detail": "for every count value the size announced for clientAddress is the count itself" if verdict == "unsat" else
+                                "the size announced for clientAddress differs from cbClientAddress (e.g. %s): the count on the wire is not the size of the buffer" % mdl})
+    tz = [x for x in p.events if x[0] == "call" and re.search(r"from_elem::<u8>$", x[2])]
+    if tz:
+        nn = se.operand(p, tz[-1][4][1])
+        ok = nn is not None and z3.is_bv_value(z3.simplify(nn)) and z3.simplify(nn).as_long() == 172
+        obs.append({"id": "ext_info:timezone-172", "ok": ok, "functions": [f.name], "where": f.name, "needs_native": False, "native": None if ok else EXT_INFO_NATIVE,
+                    "detail": "clientTimeZone is 172 bytes (TS_TIME_ZONE_INFORMATION)" if ok else "clientTimeZone is not 172 bytes"})
+    return obs
